@@ -101,6 +101,9 @@ enum Ann {
     Finished { s: usize },
 }
 
+/// no scripted child writes more than a few pipe capacities per stream
+const REC_CAP: usize = 64 << 20;
+
 struct Rec {
     data: Arc<Mutex<Vec<u8>>>,
     decisions: Vec<Dec>,
@@ -127,7 +130,12 @@ impl Write for Rec {
             _ => buf.len(),
         };
         self.last_interrupted = false;
-        self.data.lock().expect("rec").extend_from_slice(&buf[..n]);
+        let mut data = self.data.lock().expect("rec");
+        if data.len() + n > REC_CAP {
+            // see direct.rs: duplicated data must not exhaust memory
+            return Err(io::Error::other("recorder received far more bytes than any child writes"));
+        }
+        data.extend_from_slice(&buf[..n]);
         Ok(n)
     }
     fn flush(&mut self) -> io::Result<()> {
